@@ -502,7 +502,11 @@ func (w *WAL) DeleteRange(min uint64, max uint64) error {
 	//   |first====last|
 	case min <= first: // max >= first implied by the first case not matching
 		// Note we allow head truncations where max > last which effectively removes
-		// the entire log.
+		// the entire log. Clamp max so that max+1 can't overflow for callers passing
+		// math.MaxUint64 as "everything".
+		if max > last {
+			max = last
+		}
 		return w.truncateHeadLocked(max + 1)
 
 	//    |min----max|
